@@ -64,14 +64,20 @@ class Registered:
     pass
 
 
+class SubRegistered(Registered):
+    """a subclass of a registered type that is not registered itself: not deserialisable"""
+
+
 def _a_function():
     pass
 
 
 _T = typing.TypeVar("_T")
 
-ATTR_KINDS = ["missing", "function", "module", "typevar", "int", "plain-class", "registered-class", "serializer", "serializer-without-from_json", "generic-alias"]
+ATTR_KINDS = ["missing", "function", "module", "typevar", "int", "plain-class", "registered-class", "serializer", "serializer-without-from_json", "generic-alias", "subclass-of-registered-class", "unhashable-object"]
 ATTR_OBJECTS = {
+    "subclass-of-registered-class": SubRegistered,
+    "unhashable-object": ["not", "a", "class"],
     "function": _a_function,
     "module": os,
     "typevar": _T,
